@@ -357,3 +357,4 @@ A(V("c03-none-in-ttfont", "C03", "ttLib/tables/_c_m_a_p.py", '_hasGlyphNamedNone
 A(V("c10-search-gives-up", "C10", "varLib/merger.py", "                if rec.SecondGlyph == secondGlyph:\n                    return rec\n            continue\n", "                if rec.SecondGlyph == secondGlyph:\n                    return rec\n            return None\n", "EARLY-NEG"))
 A(V("c10-tolerance-not-forwarded", "C10", "varLib/__init__.py", "                var.optimize(origCoords, endPts, tolerance=tolerance)", "                var.optimize(origCoords, endPts)", "OPT-UNUSED"))
 A(V("c19-glif-formatversion-dropped", "C19", "ufoLib/glifLib.py", "            outline,\n            formatVersion=formatVersion,\n            identifiers=identifiers,", "            outline,\n            identifiers=identifiers,", "KW-FWD"))
+A(V("c07-varc-covered-never-filled", "C07", "subset/__init__.py", "            covered.add(glyphName)\n            idx = glyphMap.get(glyphName)", "            idx = glyphMap.get(glyphName)", "EMPTY-COLL"))
